@@ -79,7 +79,7 @@ func c16Script(ctx *core.Ctx, idx int) core.Result {
 	var stmts []ast.Node
 	n := r.Range(2, 7)
 	for i := 0; i < n; i++ {
-		switch r.Intn(5) {
+		switch r.Intn(7) {
 		case 0: // strings with structural characters, written and concatenated
 			s := trickyStrings[r.Intn(len(trickyStrings))]
 			stmts = append(stmts, icall("write", ast.Binary{Op: "+", L: ast.StrLit{V: s}, R: ast.StrLit{V: "|"}}))
@@ -88,12 +88,27 @@ func c16Script(ctx *core.Ctx, idx int) core.Result {
 			g.Globals = append(g.Globals, gen.Var{Name: name, T: gen.Str})
 			stmts = append(stmts, ast.Assign{Name: name, Value: ast.StrLit{V: trickyStrings[r.Intn(len(trickyStrings))]}})
 			stmts = append(stmts, icall("write", ast.Unary{Op: "#", X: nm(name)}))
+		case 2: // a very long line (longer than any reader buffer)
+			name := g.FreshName()
+			g.Globals = append(g.Globals, gen.Var{Name: name, T: gen.Str})
+			n := []int{4000, 4089, 4090, 4096, 5000, 9000}[r.Intn(6)]
+			stmts = append(stmts, ast.Assign{Name: name, Value: ast.StrLit{V: strings.Repeat("a", n)}})
+			stmts = append(stmts, icall("write", ast.Unary{Op: "#", X: nm(name)}))
 		default:
 			st := g.TopStmt()
 			stmts = append(stmts, st)
 		}
 		if r.Chance(1, 2) {
 			stmts = append(stmts, icall("write", ast.StrLit{V: fmt.Sprintf("<%d>", i)}))
+		}
+	}
+	// raw statements with backslashes in string literals (the README does not define them, so their
+	// expectation comes from entering them one by one in-process, not from the reference)
+	var raw []string
+	if r.Chance(1, 4) {
+		for k := r.Range(1, 3); k > 0; k-- {
+			raw = append(raw, []string{"write(\"C:\\\\\")", "write(\"a\\\\\" + \"|\")", "zb = \"\\\\\"", "write(\"x\\ty\\\\\")", "write(\"q\\\\\") ; c \" {"}[r.Intn(5)])
+			raw = append(raw, fmt.Sprintf("write(\"<r%d>\")", k))
 		}
 	}
 	// reference
@@ -116,6 +131,7 @@ func c16Script(ctx *core.Ctx, idx int) core.Result {
 			texts[i] += " ; trailing comment with { [ \" and }"
 		}
 	}
+	texts = append(texts, raw...)
 	var script strings.Builder
 	for i, t := range texts {
 		if r.Chance(1, 6) {
@@ -141,6 +157,21 @@ func c16Script(ctx *core.Ctx, idx int) core.Result {
 	for i := range stmts {
 		wantFile += want[i].Out
 		wantRepl += want[i].Out + "> " + val.Display(want[i].Value) + "\n"
+	}
+	if len(raw) > 0 {
+		// in-process, one statement at a time, REPL mode
+		calcrun.SetStdin("")
+		s2 := calcrun.NewSession()
+		for _, t := range raw {
+			for _, ob := range s2.Exec(t, true) {
+				if ob.Panic != nil || ob.Parse != nil || ob.StepLimit || ob.Hang != "" || ob.Err != "" {
+					return core.Result{Verdict: core.Inconclusive, Reason: "raw statement failed in-process"}
+				}
+				wantFile += ob.Out
+				wantRepl += ob.Out + "> " + val.Display(ob.Value) + "\n"
+			}
+		}
+		res.Tag("script:backslash-strings")
 	}
 	// file mode
 	path, rm := scratchFile("c16-*.calc", script.String())
@@ -299,7 +330,7 @@ func init() {
 			{Name: "eval", Count: countFn(800, 15000), Run: c16Eval},
 		},
 		Sanitize: []string{"script"},
-		Floors:   []core.Floor{{Key: "file_runs", Quick: 400, Thor: 20000}, {Key: "repl_runs", Quick: 400, Thor: 20000}, {Key: "eval_runs", Quick: 400, Thor: 20000}, {Key: "tag:script:", Quick: 4, Thor: 4}},
+		Floors:   []core.Floor{{Key: "file_runs", Quick: 400, Thor: 20000}, {Key: "repl_runs", Quick: 400, Thor: 20000}, {Key: "eval_runs", Quick: 400, Thor: 20000}, {Key: "tag:script:", Quick: 5, Thor: 5}},
 	})
 	core.CaseSeconds["C16/script"] = 1
 	core.CaseSeconds["C16/eval"] = 1
